@@ -1,0 +1,103 @@
+//go:build verif
+
+package frugal
+
+// Exported wrappers around package internals, compiled only with the "verif"
+// build tag. They add no behaviour; they let an external harness observe the
+// unexported functions the verification models describe.
+
+import (
+	"io"
+
+	"github.com/apache/thrift/lib/go/thrift"
+)
+
+// VerifMarshalHeaders exposes v0 marshalHeaders.
+func VerifMarshalHeaders(headers map[string]string) []byte {
+	return writeMarshaler.marshalHeaders(headers)
+}
+
+// VerifReadHeader exposes readHeader.
+func VerifReadHeader(reader io.Reader) (map[string]string, error) {
+	return readHeader(reader)
+}
+
+// VerifGetHeadersFromFrame exposes getHeadersFromFrame.
+func VerifGetHeadersFromFrame(frame []byte) (map[string]string, error) {
+	return getHeadersFromFrame(frame)
+}
+
+// VerifAddHeadersToFrame exposes addHeadersToFrame.
+func VerifAddHeadersToFrame(frame []byte, headers map[string]string) ([]byte, error) {
+	return addHeadersToFrame(frame, headers)
+}
+
+// VerifUnmarshalFrame exposes unmarshalFrame.
+func VerifUnmarshalFrame(frame []byte) (map[string]string, []byte, error) {
+	c, err := unmarshalFrame(frame)
+	if err != nil {
+		return nil, nil, err
+	}
+	return c.headers, c.payload, nil
+}
+
+// VerifRegistry exposes the client registry.
+type VerifRegistry struct{ r *fRegistryImpl }
+
+// VerifNewRegistry creates a registry.
+func VerifNewRegistry() *VerifRegistry {
+	return &VerifRegistry{r: newFRegistry().(*fRegistryImpl)}
+}
+
+// Register registers a channel for the context.
+func (v *VerifRegistry) Register(ctx FContext, c chan []byte) error { return v.r.Register(ctx, c) }
+
+// Unregister removes the context.
+func (v *VerifRegistry) Unregister(ctx FContext) { v.r.Unregister(ctx) }
+
+// Execute dispatches a frame (without the frame size prefix).
+func (v *VerifRegistry) Execute(frame []byte) error { return v.r.Execute(frame) }
+
+// Len returns the number of registered op ids.
+func (v *VerifRegistry) Len() int {
+	v.r.mu.RLock()
+	defer v.r.mu.RUnlock()
+	return len(v.r.channels)
+}
+
+// VerifTransportRegistryLen returns the number of registered op ids of a
+// transport built on fBaseTransport (adapter, NATS), or -1.
+func VerifTransportRegistryLen(t FTransport) int {
+	var reg fRegistry
+	switch tr := t.(type) {
+	case *fAdapterTransport:
+		reg = tr.registry
+	case *fNatsTransport:
+		reg = tr.registry
+	default:
+		return -1
+	}
+	impl, ok := reg.(*fRegistryImpl)
+	if !ok {
+		return -1
+	}
+	impl.mu.RLock()
+	defer impl.mu.RUnlock()
+	return len(impl.channels)
+}
+
+// VerifExecuteFrame exposes fBaseTransport.ExecuteFrame of a transport.
+func VerifExecuteFrame(t FTransport, frame []byte) error {
+	switch tr := t.(type) {
+	case *fAdapterTransport:
+		// the read loop hands the frame (size prefix already stripped by the
+		// framed transport) to the registry
+		return tr.registry.Execute(frame[4:])
+	case *fNatsTransport:
+		return tr.ExecuteFrame(frame)
+	}
+	return thrift.NewTTransportException(TRANSPORT_EXCEPTION_UNKNOWN, "verif: unsupported transport")
+}
+
+// VerifGetOpID exposes getOpID.
+func VerifGetOpID(ctx FContext) (uint64, error) { return getOpID(ctx) }
